@@ -251,6 +251,39 @@ fn handle(line: &str) -> String {
                 Err(_) => "err".to_string(),
             }
         }
+        "repro" => {
+            // <user:group,user:group,...>: build the same configuration (one file per owner, fixed contents, mtimes and source date) 24 times;
+            // answers same | differ at <offset> | late <what>
+            let owners: Vec<(String, String)> = if p[1] == "-" { vec![] } else {
+                p[1].split(',').map(|x| { let mut it = x.split(':'); (it.next().unwrap_or("root").to_string(), it.next().unwrap_or("root").to_string()) }).collect()
+            };
+            let sd: u32 = 1_600_000_000;
+            let src = std::env::temp_dir().join(format!("rpm-native-replay-src-{}", std::process::id()));
+            std::fs::write(&src, b"x").unwrap();
+            let mut outs: Vec<Vec<u8>> = Vec::new();
+            let mut late = String::new();
+            for _ in 0..24 {
+                let mut b = rpm::PackageBuilder::new("n", "1", "MIT", "noarch", "s").compression(rpm::CompressionType::None).source_date(sd);
+                for (i, (u, g)) in owners.iter().enumerate() {
+                    b = b.with_file(&src, rpm::FileOptions::new(format!("/d/f{}", i)).user(u.clone()).group(g.clone())).unwrap();
+                }
+                let pkg = b.build().unwrap();
+                if let Ok(t) = pkg.metadata.get_build_time() { if t > sd as u64 { late = format!("build time {}", t); } }
+                if let Ok(fes) = pkg.metadata.get_file_entries() { for fe in fes { if u32::from(fe.modified_at) > sd { late = format!("file mtime {}", u32::from(fe.modified_at)); } } }
+                let mut o = Vec::new();
+                pkg.write(&mut o).unwrap();
+                outs.push(o);
+            }
+            let _ = std::fs::remove_file(&src);
+            if !late.is_empty() {
+                format!("late {}", late)
+            } else if let Some(o) = outs.iter().find(|o| **o != outs[0]) {
+                let at = o.iter().zip(outs[0].iter()).position(|(a, b)| a != b).unwrap_or(o.len().min(outs[0].len()));
+                format!("differ at {} ({} distinct outputs of 24)", at, { let mut v = outs.clone(); v.sort(); v.dedup(); v.len() })
+            } else {
+                "same".to_string()
+            }
+        }
         "wsink" => {
             // <k> <fail_at> <intr_at> <package|metadata>: write a freshly built package into a scripted sink; every failure position is tried
             let k: usize = p[1].parse().unwrap_or(0);
